@@ -403,3 +403,151 @@ func TestC09Deleg(t *testing.T) {
 		}
 	})
 }
+
+// ---- one morphism value handed to two stages, one after the other (C07): Lift/Try/LiftF/TryF (and the fork
+// constructors) build a value the caller may keep; whatever happened in the first stage - a failure above all - the
+// second stage behaves as documented for its own input.
+
+func runReuse(sc *Scenario) string {
+	fails := map[int]bool{}
+	for _, x := range sc.Fail {
+		fails[x] = true
+	}
+	calls := 0
+	f := func(x int) (int, error) {
+		calls++
+		if fails[x] {
+			return 0, fmt.Errorf("E%d", x)
+		}
+		return sc.A*x + sc.B, nil
+	}
+	arrow := func(ctx context.Context, x int, out chan<- int) error {
+		calls++
+		if fails[x] {
+			return fmt.Errorf("E%d", x)
+		}
+		for _, y := range []int{sc.A*x + sc.B, x + 1000} {
+			select {
+			case out <- y:
+			case <-ctx.Done():
+				return nil
+			}
+		}
+		return nil
+	}
+	failFast := sc.Mode == "lift" || sc.Mode == "liftf"
+	expect := func(in []int) (vals []int, errs []string, nCalls int) {
+		for _, x := range in {
+			nCalls++
+			if fails[x] {
+				errs = append(errs, fmt.Sprintf("E%d", x))
+				if failFast {
+					return
+				}
+				continue
+			}
+			vals = append(vals, sc.A*x+sc.B)
+			if sc.Stage == "reuse/fmap" || sc.Stage == "reuse/fork.fmap" {
+				vals = append(vals, x+1000)
+			}
+		}
+		return
+	}
+	var stage func(ctx context.Context, in <-chan int) (<-chan int, <-chan error)
+	switch sc.Stage {
+	case "reuse/map":
+		m := pipe.Lift(f)
+		if sc.Mode == "try" {
+			m = pipe.Try(f)
+		}
+		stage = func(ctx context.Context, in <-chan int) (<-chan int, <-chan error) { return pipe.Map(ctx, in, m) }
+	case "reuse/fmap":
+		m := pipe.LiftF(arrow)
+		if sc.Mode == "tryf" {
+			m = pipe.TryF(arrow)
+		}
+		stage = func(ctx context.Context, in <-chan int) (<-chan int, <-chan error) { return pipe.FMap(ctx, in, m) }
+	case "reuse/fork.map":
+		m := fork.Lift(f)
+		if sc.Mode == "try" {
+			m = fork.Try(f)
+		}
+		stage = func(ctx context.Context, in <-chan int) (<-chan int, <-chan error) { return fork.Map(ctx, 1, in, m) }
+	default:
+		m := fork.LiftF(arrow)
+		if sc.Mode == "tryf" {
+			m = fork.TryF(arrow)
+		}
+		stage = func(ctx context.Context, in <-chan int) (<-chan int, <-chan error) { return fork.FMap(ctx, 1, in, m) }
+	}
+	for round, in := range sc.In {
+		calls = 0
+		ctx, cancel := context.WithCancel(context.Background())
+		src := make(chan int)
+		stop := make(chan struct{})
+		go func() {
+			defer close(src)
+			for _, x := range in {
+				select {
+				case src <- x:
+				case <-stop:
+					return
+				}
+			}
+		}()
+		out, exx := stage(ctx, src)
+		var errs []string
+		errsDone := make(chan struct{})
+		go func() {
+			defer close(errsDone)
+			for e := range exx {
+				errs = append(errs, e.Error())
+			}
+		}()
+		var vals []int
+		for v := range out {
+			vals = append(vals, v)
+		}
+		<-errsDone
+		close(stop)
+		cancel()
+		synctest.Wait()
+		wv, we, wc := expect(in)
+		if fmt.Sprint(vals) != fmt.Sprint(wv) || fmt.Sprint(errs) != fmt.Sprint(we) || calls != wc {
+			return fmt.Sprintf("%s with one %s morphism value used for %d stages in a row, stage %d over %v (failing %v): values %v errors %v calls %d, expected values %v errors %v calls %d",
+				sc.Stage[6:], sc.Mode, len(sc.In), round+1, in, sc.Fail, vals, errs, calls, wv, we, wc)
+		}
+	}
+	return ""
+}
+
+func TestC07Reuse(t *testing.T) {
+	rapid.Check(t, func(rt *rapid.T) {
+		stage := rapid.SampledFrom([]string{"reuse/map", "reuse/fmap", "reuse/fork.map", "reuse/fork.fmap"}).Draw(rt, "stage")
+		mode := rapid.SampledFrom([]string{"lift", "try"}).Draw(rt, "mode")
+		if stage == "reuse/fmap" || stage == "reuse/fork.fmap" {
+			mode += "f"
+		}
+		sc := &Scenario{Prop: "C07", Stage: stage, Mode: mode, A: rapid.IntRange(1, 3).Draw(rt, "a"), B: rapid.IntRange(0, 5).Draw(rt, "b"),
+			Fail: rapid.SliceOfNDistinct(rapid.IntRange(0, 9), 0, 5, rapid.ID[int]).Draw(rt, "fail")}
+		for k := rapid.IntRange(2, 3).Draw(rt, "stages"); k > 0; k-- {
+			sc.In = append(sc.In, rapid.SliceOfN(rapid.IntRange(0, 9), 0, 8).Draw(rt, "in"))
+		}
+		msg := ""
+		b := bubble.Run(t, func() { msg = runReuse(sc) })
+		if msg == "" {
+			msg = b
+		}
+		failed := false
+		for _, x := range sc.In[0] {
+			for _, f := range sc.Fail {
+				failed = failed || x == f
+			}
+		}
+		vk.Record(sc, failed, "stage="+sc.Stage, "mode="+sc.Mode, "first-stage-failed="+strconv.FormatBool(failed))
+		if msg != "" {
+			vk.Fail("C07", "TestC07Reuse", "", sc, msg)
+			rt.Fatalf("%s", msg)
+		}
+	})
+}
